@@ -221,6 +221,42 @@ def gen(ctx):
             C.add("psub_aff", list(inf) + [tn[0], tn[1]], "psub_aff:inf-Q", cost=25)
         C.add("padd_aff", list(rep(p1, "scaled")) + [0, 0], "padd_aff:P+inf(0,0)", cost=25)
         C.add("psub_aff", list(rep(p1, "norm")) + [0, 0], "psub_aff:P-inf(0,0)", cost=25)
+    # the two curve points with x = 0 (the affine-infinity test ORs the limbs of x AND y), and affine
+    # operands with one zero coordinate that are off the curve (Impl layers only)
+    P0 = (0, E.sqrt(E.Bc))
+    assert E.on_curve(*P0)
+    for q0 in (P0, E.neg(P0)):
+        tq = E.jac(q0, 1)
+        for pi, p1 in enumerate([pts[1], pts[4], q0, E.neg(q0), E.mul(2, q0)]):
+            for k1 in ("norm", "scaled"):
+                t1 = rep(p1, k1)
+                rel = "doubling" if p1 == q0 else ("cancel" if p1 == E.neg(q0) else "generic")
+                rels = "doubling" if p1 == E.neg(q0) else ("cancel" if p1 == q0 else "generic")
+                # the doubling class keeps its plain cell name (same class, and the same known finding of the
+                # assembly back-end, whichever point is doubled)
+                C.add("padd_aff", list(t1) + [tq[0], tq[1]], ("padd_aff:doubling:%s" % k1) if rel == "doubling" else "padd_aff:x0-point:%s:%s" % (rel, k1), cost=25)
+                C.add("psub_aff", list(t1) + [tq[0], tq[1]], ("psub_aff:doubling:%s" % k1) if rels == "doubling" else "psub_aff:x0-point:%s:%s" % (rels, k1), cost=25)
+                C.add("padd", list(t1) + list(tq), "padd:x0-point:%s:%s" % (rel, k1), cost=25)
+        for inf in INF:
+            C.add("padd_aff", list(inf) + [tq[0], tq[1]], "padd_aff:x0-point:inf+Q", cost=25)
+        C.add("pdbl", list(tq), "pdbl:x0-point", cost=20)
+        C.add("pxy", list(tq), "pxy:x0-point", cost=20)
+        C.add("ponc", list(tq), "ponc:x0-point", cost=10)
+        C.add("precomp", list(tq), "precomp:x0-point", cost=900)
+        C.add("precomp", list(E.jac(q0, 3)), "precomp:x0-point:scaled", cost=900)
+        for k in [1, 2, 3, 17, N - 1, rnd(), pat()]:
+            C.add("pmul", [k] + list(tq), "pmul:x0-point:norm", cost=2000)
+        C.add("pmul", [rnd()] + list(E.jac(q0, 5)), "pmul:x0-point:scaled", cost=2000)
+        C.add("pmulsum", [rnd()] + list(tq) + [rnd()], "pmulsum:x0-point", cost=3500)
+        C.add("pmulsum", [1] + list(tq) + [0], "pmulsum:x0-point:t=1,s=0", cost=3500)
+    for i in range(4):
+        t1 = rep(pts[2 + i], "scaled" if i % 2 else "norm")
+        C.add("padd_aff", list(t1) + [0, rnd() % P], "padd_aff:affine-x=0-offcurve", cost=25)
+        C.add("padd_aff", list(t1) + [rnd() % P, 0], "padd_aff:affine-y=0-offcurve", cost=25)
+        C.add("psub_aff", list(t1) + [rnd() % P, 0], "psub_aff:affine-y=0-offcurve", cost=25)
+        # single non-zero limb in one coordinate, zero in the other
+        C.add("padd_aff", list(t1) + [0, 1 << (64 * i)], "padd_aff:affine-onelimb-y", cost=25)
+        C.add("padd_aff", list(t1) + [1 << (64 * i), 0], "padd_aff:affine-onelimb-x", cost=25)
     # representatives whose raw Z has a single non-zero limb (the infinity tests OR the limbs of Z)
     def sparse(pt, i):
         return E.jac_rawz(pt, (1 + rnd() % ((1 << 32) - 1 if i == 3 else (1 << 64) - 1)) << (64 * i))
